@@ -166,6 +166,21 @@ type sxOuter struct {
 	up    uintptr
 }
 
+// embedded (anonymous) struct fields, by value and by pointer, and one pointer stored in two fields
+type sxEmb struct {
+	sxInner
+	x int8
+}
+type sxEmbPtr struct {
+	*sxInner
+	y uint16
+}
+type sxTwoPtr struct {
+	p, q *int64
+	r    *sxInner
+	s    *sxInner
+}
+
 func staticValue(name string) (interface{}, J, J) {
 	sc := func(k string) J { return J{"k": k} }
 	innerT := J{"k": "struct", "f": []J{sc("int8"), {"k": "slice", "e": sc("int16")}, {"k": "ptr", "e": sc("int64")}}}
@@ -190,6 +205,22 @@ func staticValue(name string) (interface{}, J, J) {
 			{"nil": false, "dt": J{"k": "slice", "e": sc("uint32")}, "dyn": J{"nil": false, "el": []J{{"x": 7}}}},
 			{"el": []J{{"x": 1}, {"x": 2}}}, {"x": 3}, {"x": 4}}}
 		return v, outerT, val
+	case "emb":
+		_, ti, vi := staticValue("inner")
+		in, _, _ := staticValue("inner")
+		return sxEmb{in.(sxInner), 1}, J{"k": "struct", "f": []J{ti, sc("int8")}}, J{"f": []J{vi, {"x": 1}}}
+	case "embptr":
+		_, ti, vi := staticValue("inner")
+		in, _, _ := staticValue("inner")
+		iv := in.(sxInner)
+		return []sxEmbPtr{{&iv, 2}, {nil, 3}}, J{"k": "slice", "e": J{"k": "struct", "f": []J{{"k": "ptr", "e": ti}, sc("uint16")}}},
+			J{"nil": false, "el": []J{{"f": []J{{"nil": false, "to": vi}, {"x": 2}}}, {"f": []J{{"nil": true}, {"x": 3}}}}}
+	case "twoptr":
+		_, ti, vi := staticValue("inner")
+		in, _, _ := staticValue("inner")
+		iv := in.(sxInner)
+		return &sxTwoPtr{&x, &x, &iv, &iv}, J{"k": "ptr", "e": J{"k": "struct", "f": []J{{"k": "ptr", "e": sc("int64")}, {"k": "ptr", "e": sc("int64")}, {"k": "ptr", "e": ti}, {"k": "ptr", "e": ti}}}},
+			J{"nil": false, "to": J{"f": []J{{"nil": false, "to": J{"x": 5}}, {"nil": false, "to": J{"x": 5}}, {"nil": false, "to": vi}, {"nil": false, "to": vi}}}}
 	case "outerslice":
 		a, ta, va := staticValue("outer")
 		o := a.(sxOuter)
@@ -371,7 +402,7 @@ func (sg *sizeGen) val(t J, depth int, uniq bool) J {
 func genC20(g *Gen) {
 	sg := &sizeGen{r: g.R}
 	g.Case("size", J{"topnil": true})
-	for _, name := range []string{"inner", "innerptr", "outer", "outerslice"} {
+	for _, name := range []string{"inner", "innerptr", "outer", "outerslice", "emb", "embptr", "twoptr"} {
 		g.Case("size", J{"topnil": false, "static": name})
 	}
 	// every scalar kind at top level, in a slice, an array, behind a pointer, in an interface, as map value
